@@ -78,14 +78,16 @@ func OpInRange(x Value, orgOp tok.Token, org Value, endOp tok.Token, end Value) 
 func OpAdd(x Value, y Value) Value {
 	if xi, xok := SuIntToInt(x); xok {
 		if yi, yok := SuIntToInt(y); yok {
-			return IntVal(xi + yi)
+			if sum := xi + yi; (sum > xi) == (yi > 0) { // no overflow
+				return IntVal(sum)
+			}
 		}
 	}
 	return SuDnum{Dnum: dnum.Add(ToDnum(x), ToDnum(y))}
 }
 
 func OpAdd1(x Value) Value {
-	if n, ok := SuIntToInt(x); ok {
+	if n, ok := SuIntToInt(x); ok && n != math.MaxInt {
 		return IntVal(n + 1)
 	}
 	return SuDnum{Dnum: dnum.Add(ToDnum(x), dnum.One)}
@@ -94,7 +96,9 @@ func OpAdd1(x Value) Value {
 func OpSub(x Value, y Value) Value {
 	if xi, xok := SuIntToInt(x); xok {
 		if yi, yok := SuIntToInt(y); yok {
-			return IntVal(xi - yi)
+			if diff := xi - yi; (diff < xi) == (yi > 0) { // no overflow
+				return IntVal(diff)
+			}
 		}
 	}
 	return SuDnum{Dnum: dnum.Sub(ToDnum(x), ToDnum(y))}
@@ -103,7 +107,11 @@ func OpSub(x Value, y Value) Value {
 func OpMul(x Value, y Value) Value {
 	if xi, xok := SuIntToInt(x); xok {
 		if yi, yok := SuIntToInt(y); yok {
-			return IntVal(xi * yi)
+			prod := xi * yi
+			// divide back to detect overflow, except MinInt / -1 itself overflows
+			if xi == 0 || (prod/xi == yi && !(xi == -1 && yi == math.MinInt)) {
+				return IntVal(prod)
+			}
 		}
 	}
 	return SuDnum{Dnum: dnum.Mul(ToDnum(x), ToDnum(y))}
@@ -112,7 +120,7 @@ func OpMul(x Value, y Value) Value {
 func OpDiv(x Value, y Value) Value {
 	if yi, yok := SuIntToInt(y); yok && yi != 0 {
 		if xi, xok := SuIntToInt(x); xok {
-			if xi%yi == 0 {
+			if xi%yi == 0 && !(xi == math.MinInt && yi == -1) {
 				return IntVal(xi / yi)
 			}
 		}
@@ -182,7 +190,7 @@ func OpUnaryPlus(x Value) Value {
 }
 
 func OpUnaryMinus(x Value) Value {
-	if xi, ok := SuIntToInt(x); ok {
+	if xi, ok := SuIntToInt(x); ok && xi != math.MinInt {
 		return IntVal(-xi)
 	}
 	if x == EmptyStr || x == False {
